@@ -424,6 +424,9 @@ func (e *SpecEnv) evalCall(x *ast.CallExpr) Val {
 		if e.old != nil {
 			oa = e.old.alloc
 		}
+		if n, ok := isOpaqueNamed(v.T); ok && n == "reflect.Value" {
+			return Val{T: types.Typ[types.Bool], L: []string{and(app("bvuge", v.L[iObj], oa), app("bvult", v.L[iObj], e.st.alloc))}}
+		}
 		switch v.T.Underlying().(type) {
 		case *types.Pointer:
 			return Val{T: types.Typ[types.Bool], L: []string{and(app("bvuge", v.L[0], oa), app("bvult", v.L[0], e.st.alloc))}}
